@@ -22,6 +22,9 @@ def setup(rep):
                "the start (DFT shift theorem, A5)")
     rep.clause("function-signal-filters", "A", "FunctionSignal._apply_filters: no filter = identity; one filter = Signal.filter_frequencies; "
                "several filters = the product response, in any order")
+    rep.clause("bounded-whole-filter", "B", "native sampling: filter_frequencies(force_real=True) equals the direct zero-padded DFT "
+               "expectation and is homogeneous in the response, for scalar-only responses whose Python return type changes with "
+               "frequency, complex scalar responses, vectorised and integer-valued responses (numpy dtype handling is outside A1)")
     rep.clause("numerical-accuracy", "N", "floating-point round-off of the fft (the 1e-5 imaginary-part warning) is not modelled (A1)")
     rep.assume("A1 (floats as reals), A4 (response functions are pure), A5 (array laws of numpy/scipy.fft listed in pyvc/absarr.py: "
                "assumed, cross-checked numerically on every run by absarr.numeric_check)")
